@@ -30,6 +30,8 @@ type verifPair struct {
 	sends       int // accepted sends in the current window
 	unsure      bool
 	everSent    bool // a send was accepted before (the interval rule counts from it, whatever the gateway did)
+	others      [3]bool // the other pairs whose cache entry was touched since this pair's entry was last touched
+	lost        bool    // as many other pairs as the cache holds were touched since: the entry may have been evicted
 }
 
 // C19/H1: a symbolic history of send / verify over two (area, phone) pairs against the statement read
@@ -49,7 +51,7 @@ func VerifH_VCodeHistory() {
 		}
 		return string(b)
 	})
-	cfg := &Config{CacheSize: 100}
+	cfg := &Config{CacheSize: int64(symx.Param("cacheSize", 100))}
 	// every configuration dimension is symbolic unless a family parameter pins it (deeper histories
 	// are affordable on a pinned configuration)
 	pick := func(name string, fixed int) bool {
@@ -86,29 +88,63 @@ func VerifH_VCodeHistory() {
 	// two distinct (area code, phone) pairs of digits; the second one splits its three digits either
 	// like the first (1+2) or the other way round (2+1), so that the two pairs can differ while
 	// their digits read the same in a row
+	concretePairs := symx.Param("concretePairs", 0) == 1
 	digits := func(name string, n int) string {
+		if concretePairs { // the families about cache pressure use fixed, distinct pairs
+			return map[string]string{"area0": "1", "phone0": "23", "area1": "4", "phone1": "56"}[name][:n]
+		}
 		b := make([]byte, n)
 		for i := range b {
 			b[i] = symx.OneOf(name, "0123456789")
 		}
 		return string(b)
 	}
-	pairs := [2]*verifPair{
+	pairs := [3]*verifPair{
 		{area: digits("area0", 1), phone: digits("phone0", 2)},
 		{},
+		{area: "77", phone: "7"}, // a third pair for the families with a small cache (used when pairs=3)
 	}
-	if symx.Bool("area1TwoDigits") {
+	if !concretePairs && symx.Bool("area1TwoDigits") {
 		pairs[1].area, pairs[1].phone = digits("area1", 2), digits("phone1", 1)
 	} else {
 		pairs[1].area, pairs[1].phone = digits("area1", 1), digits("phone1", 2)
 	}
 	symx.Assume(pairs[0].area != pairs[1].area || pairs[0].phone != pairs[1].phone)
+	symx.Assume(!(pairs[0].area+"-"+pairs[0].phone == "77-7") && !(pairs[1].area+"-"+pairs[1].phone == "77-7"))
+	// cache pressure: the cache keeps the CacheSize most recently touched pairs. touch(i) records that pair
+	// i's entry was set or read; a pair for which CacheSize other pairs were touched since its own last
+	// touch may have been evicted - nothing is claimed about it from then on (lost).
+	touch := func(i int) {
+		pairs[i].others = [3]bool{}
+		for j, q := range pairs {
+			if j == i {
+				continue
+			}
+			q.others[i] = true
+			n := 0
+			for _, o := range q.others {
+				if o {
+					n++
+				}
+			}
+			if int64(n) >= cfg.CacheSize {
+				q.lost = true
+			}
+		}
+	}
 	steps := symx.Param("steps", 3)
 	for st := 0; st < steps; st++ {
-		p := pairs[symx.Concrete(symx.Int("which"), 0, symx.Param("pairs", 2)-1)]
+		pi := symx.Concrete(symx.Int("which"), 0, symx.Param("pairs", 2)-1)
+		p := pairs[pi]
 		if symx.Bool("send") {
 			sms.fail = !cfg.Mock && symx.Bool("smsFails")
 			hash, err := logic.SendSMSCode(p.area, p.phone)
+			if err != ErrSendTooFreq && err != ErrSendCountLimit {
+				touch(pi) // an accepted send stores the pair's entry
+			}
+			if p.lost {
+				continue
+			}
 			refused := false
 			if p.everSent && tooFreq {
 				symx.Assert(err == ErrSendTooFreq, "a send closer than the minimum interval to the previous one is refused")
@@ -149,7 +185,10 @@ func VerifH_VCodeHistory() {
 		}
 		// verify with the right or another code / hash
 		code, hash := p.code, p.hash
-		rightCode, rightHash := symx.Bool("rightCode"), symx.Bool("rightHash")
+		rightCode, rightHash := true, true
+		if symx.Param("onlyRightVerify", 0) == 0 {
+			rightCode, rightHash = symx.Bool("rightCode"), symx.Bool("rightHash")
+		}
 		if !rightCode {
 			code = symx.String("otherCode", cfg.CodeLen)
 			symx.Assume(code != p.code)
@@ -159,7 +198,10 @@ func VerifH_VCodeHistory() {
 			symx.Assume(hash != p.hash)
 		}
 		err := logic.VerifySMSCode(p.area, p.phone, code, hash)
-		if p.unsure {
+		if p.everSent {
+			touch(pi) // a verification reads the pair's entry (if it is still there)
+		}
+		if p.unsure || p.lost {
 			continue
 		}
 		if !p.sent {
